@@ -47,7 +47,7 @@ def plans(ctx):
          {"id": "try-n1", "n": 1, "kinds": "PTRXGIKS", "tries": (2, True)},
          {"id": "try-n2", "n": 2, "kinds": "PTRXGIKS", "tries": (2, True)}]
     if ctx.thorough:
-        p.append({"id": "try1-n3", "n": 3, "kinds": "PTRXGIKS", "tries": (1, True)})
+        p.append({"id": "try1-n3", "n": 3, "kinds": "PTRXGIKS", "tries": (1, False)})
         p.append({"id": "try2-n3-TRGIK", "n": 3, "kinds": "TRGIK", "tries": (2, True)})
         p.append({"id": "try1-n4-TGI", "n": 4, "kinds": "TGI", "tries": (1, False)})
     else:
